@@ -18,7 +18,7 @@ sys.path.insert(0, HERE)
 REPO = os.environ.get('VERIF_REPO', '/repo')
 sys.path.insert(0, REPO)
 
-LEVELS = {'C17': 'proof', 'C20': 'proof'}
+LEVELS = {'C17': 'proof', 'C18': 'exploration'}
 LOCK = os.path.join(HERE, 'contracts', 'obligations.lock.json')
 KNOWN = os.path.join(HERE, 'KNOWN_FINDINGS.json')
 
@@ -240,7 +240,7 @@ def run_check(prop, tier, seed, t0, a):
 
     wall = time.time() - t0
     level = LEVELS.get(prop, 'other')
-    if level == 'proof' and (n_dis != n_obl or undecided or known_hits):
+    if level == 'proof' and (n_dis != n_obl or n_obl == 0 or undecided or known_hits):
         level = 'other'
     samples = [o['name'] for o in obligation_list[:6]]
     if bounded:
